@@ -497,7 +497,7 @@ func (se *SessionExecutor) getBackendKsConn(reqCtx *util.RequestContext, sliceNa
 		if err = pc.SetAutoCommit(0); err != nil {
 			pc.Close()
 			pc.Recycle()
-			return
+			return nil, err
 		}
 	}
 
@@ -505,7 +505,7 @@ func (se *SessionExecutor) getBackendKsConn(reqCtx *util.RequestContext, sliceNa
 		if err = pc.Begin(); err != nil {
 			pc.Close()
 			pc.Recycle()
-			return
+			return nil, err
 		}
 	}
 
@@ -534,19 +534,19 @@ func (se *SessionExecutor) getTransactionConn(sliceName string) (pc backend.Pool
 	if err = pc.SyncSessionVariables(se.sessionVariables); err != nil {
 		pc.Close()
 		pc.Recycle()
-		return
+		return nil, err
 	}
 	if !se.isAutoCommit() {
 		if err = pc.SetAutoCommit(0); err != nil {
 			pc.Close()
 			pc.Recycle()
-			return
+			return nil, err
 		}
 	} else {
 		if err = pc.Begin(); err != nil {
 			pc.Close()
 			pc.Recycle()
-			return
+			return nil, err
 		}
 	}
 	for _, savepoint := range se.savepoints {
@@ -562,8 +562,7 @@ func (se *SessionExecutor) recycleBackendConn(pc backend.PooledConnect) {
 	}
 
 	if pc.IsClosed() {
-		se.recycleTx()
-		pc.Recycle()
+		se.recycleClosedConn(pc)
 		return
 	}
 
@@ -589,8 +588,7 @@ func (se *SessionExecutor) recycleContinueConn(pc backend.PooledConnect) {
 		return
 	}
 	if pc.IsClosed() {
-		se.recycleTx()
-		pc.Recycle()
+		se.recycleClosedConn(pc)
 		return
 	}
 	if se.IsKeepSession() {
@@ -1448,10 +1446,9 @@ func (se *SessionExecutor) rollback() (err error) {
 	defer se.txLock.Unlock()
 	se.status &= ^mysql.ServerStatusInTrans
 	for _, pc := range se.txConns {
-		if pc.IsClosed() {
-			continue
+		if !pc.IsClosed() {
+			err = pc.Rollback()
 		}
-		err = pc.Rollback()
 		pc.Recycle()
 	}
 
@@ -1510,13 +1507,31 @@ func (se *SessionExecutor) handleSavepoint(stmt *ast.SavepointStmt) (err error) 
 	return
 }
 
-func (se *SessionExecutor) recycleTx() {
-	if !se.isInTransaction() {
-		return
-	}
+// recycleClosedConn returns a connection that was closed under the session.  The transaction it
+// belonged to is abandoned: every other transaction connection is rolled back and returned as well
+// (forgetting them would leak them with their backend transaction open), and a keep-session
+// connection is unpinned (it would otherwise be returned a second time by handleKsQuit).
+func (se *SessionExecutor) recycleClosedConn(pc backend.PooledConnect) {
 	se.txLock.Lock()
-	defer se.txLock.Unlock()
-	se.txConns = make(map[string]backend.PooledConnect)
+	for sliceName, ksConn := range se.ksConns {
+		if ksConn == pc {
+			delete(se.ksConns, sliceName)
+		}
+	}
+	if se.isInTransaction() {
+		for _, txConn := range se.txConns {
+			if txConn == pc {
+				continue
+			}
+			if !txConn.IsClosed() {
+				txConn.Rollback()
+			}
+			txConn.Recycle()
+		}
+		se.txConns = make(map[string]backend.PooledConnect)
+	}
+	se.txLock.Unlock()
+	pc.Recycle()
 }
 
 // handleKQuit close backend connection and recycle, only called when client exit
